@@ -807,6 +807,18 @@ class C15(Property):
         res = self._propagate(c, masters, cats)
         marks = {k for k, v in cats.items() if v == "mark"}
         viols, ctrs, sig = Viols(), self._anchor_counters(), []
+        if c["module"] == "ufoLib2":
+            # both UFO libraries: identical glyph data must receive identical anchors
+            other = self._propagate(dict(c, module="defcon"), masters, cats)
+            ctrs["library_agreement_glyphs"] = 0
+            for mi, ((_, a1, _, _), (_, d1, _, _)) in enumerate(zip(res, other)):
+                for name in a1:
+                    ctrs["library_agreement_glyphs"] += 1
+                    if sorted(a1[name]["anchors"]) != sorted(d1[name]["anchors"]):
+                        viols.add(violation("anchors-depend-on-ufo-library", {"part": "marks", "interp": c["interp"]},
+                                            glyph=name, master=mi, ufoLib2=a1[name]["anchors"],
+                                            defcon=d1[name]["anchors"], base_anchors=c["base_anchors"],
+                                            mark_anchors=c["mark_anchors"]))
         nsub = nt = 0
         for mi, (bef, a1, a2, a3) in enumerate(res):
             feat = {"part": "marks", "interp": c["interp"]}
@@ -862,6 +874,17 @@ def marks_font(bi, mi, palette, master):
                         if pi == 0 and not cat:
                             glyphs["nest" + name] = {"width": 400,
                                                      "components": [(name, B.TRANSFORMS["flipshear"])]}
+    # a second mark whose off-curve handles reach far outside its outline: the box of its control
+    # points has its lower-left corner at the origin, the outline's own is near (88, 88); the
+    # "component closest to the origin" of a mark-only ligature is decided on outlines
+    glyphs["hookcomb"] = {"width": 0, "anchors": [(n, x + 150, y + 100) for n, x, y in ma], "contours": [[
+        (200, 200, "line"), (400, 200, None), (0, 200, None), (100, 200, "curve"),
+        (100, 400, None), (100, 0, None), (100, 100, "curve"), (200, 100, "line")]]}
+    cats["hookcomb"] = "mark"
+    for lig in (0, 1):
+        glyphs["h_m" if lig else "hm"] = {"width": 0, "components": [("hookcomb", (1, 0, 0, 1, 0, 0)),
+                                                                     ("acutecomb", (1, 0, 0, 1, 0, 0))]}
+        cats["h_m" if lig else "hm"] = "mark"
     for j, tm in enumerate(palette):
         for lig in (0, 1):
             name = ("m_%d" if lig else "mm%d") % j
